@@ -239,9 +239,14 @@ structure Records where
   aecs : List (GAEC × Nat)
   mms : List GMM
 
+/-- `read_generic_qr` hands the signature's members to the generic record: `query_ancount` is the one member whose type is wider
+    in the table entry (`uint32_t`) than in `GenericQueryResponse` (`uint16_t`) – the assignment narrows.  (Both widths come from
+    the translator's `memberTable`; found by the correspondence on a mutated file whose answer count was 2^31.) -/
+def narrowQ (g : GQR) : GQR := { g with ancount := g.ancount.map (· % 65536) }
+
 def records (b : Blk) : Except RErr Records :=
   if b.qrs.all (qrIdxOk b) && b.aecs.all (aecIdxOk b) && b.mms.all (mmIdxOk b) then
-    .ok { qrs := b.qrs.map (resolveQ b),
+    .ok { qrs := b.qrs.map fun q => narrowQ (resolveQ b q),
           aecs := b.aecs.filterMap fun a => (resolveA b a.1).map fun g => (g, a.2),
           mms := b.mms.map (resolveM b) }
   else .error .other
